@@ -221,6 +221,27 @@ func initLibSpecs() {
 // format interprets a constant format string over statically known arguments.
 // Returns the SMT text and the list of %w operands.
 func (s *State) format(f Val, va Val, where string) (string, []string) {
+	// "%-" + strconv.Itoa(n) + "s": left-justified padding
+	if f.Const == nil && len(va.Elems) == 1 {
+		op, a := sexprArgs(f.Terms[0])
+		if op == "str.++" && len(a) == 2 {
+			// (str.++ (str.++ "%-" (str_itoa n)) "s")
+			if op2, a2 := sexprArgs(a[0]); op2 == "str.++" && len(a2) == 2 {
+				a = []string{a2[0], a2[1], a[1]}
+			}
+		}
+		if op == "str.++" && len(a) == 3 && a[0] == strLit("%-") && a[2] == strLit("s") && strings.HasPrefix(a[1], "(str_itoa ") {
+			arg := va.Elems[0]
+			if arg.Box != nil {
+				arg = *arg.Box
+			}
+			if isString(arg.T) {
+				s.trust("fmt %-Ns (N = strconv.Itoa(n)) left-justifies: the result starts with the operand (str_padright)")
+				w := strings.TrimSuffix(strings.TrimPrefix(a[1], "(str_itoa "), ")")
+				return app("str_padright", arg.Terms[0], w), nil
+			}
+		}
+	}
 	if f.Const == nil || (len(va.Elems) == 0 && constIndexStr(va.Terms[0]) != 0) {
 		s.eng.assumptionsUsed["fmt with a non-constant format or dynamic argument list is an opaque string"] = true
 		return s.fresh("fmt", sString), nil
